@@ -61,7 +61,8 @@ Definition d10_pcfg : pcfg := {|
   pc_drain_order := Forward; pc_watch_order := Forward; pc_codes_distinct := true |}.
 
 Inductive outcome := Val (v : Z) | Fail (f : Z).
-Inductive beh := BRet (v : Z) | BRaise (f : Z) | BRetP (q : nat).
+Inductive beh := BRet (v : Z) | BRaise (f : Z) | BRetP (q : nat)
+  | BSendRet (q : nat) (m : Z) (v : Z).   (* the method itself does sendOnly(promise q).m(..) [message m], then returns v *)
 Inductive resolution := RVal (v : Z) | RFail (f : Z) | RProm (q : nat).
 Record msg := { mid : Z; mbeh : beh; mres : option nat }.
 Inductive watcher := W (w : Z) | Chain (p : nat).
@@ -218,12 +219,18 @@ Definition run_task (c : pcfg) (s : ps) (t : task) : ps * list pev :=
           | Some (Fail f) =>
               let '(s1, e) := resolver c s (mres m) (RFail f) in (s1, EDelivered p (mid m) (Fail f) :: e)
           | Some (Val v) =>
+              (* the method runs: a re-entrant send happens first, inside the call *)
+              let '(s0, e0) := match mbeh m with
+                               | BSendRet q m2 _ => send_op c s q m2 (BRet 0) false
+                               | _ => (s, [])
+                               end in
               let x := match mbeh m with
                        | BRet x => RVal x
                        | BRaise f => RFail f
                        | BRetP q => if Nat.ltb q (next s) then RProm q else RVal 0
+                       | BSendRet _ _ x => RVal x
                        end in
-              let '(s1, e) := resolver c s (mres m) x in (s1, EDelivered p (mid m) (Val v) :: e)
+              let '(s1, e) := resolver c s0 (mres m) x in (s1, EDelivered p (mid m) (Val v) :: e0 ++ e)
           end
       end
   | TCallback p (W w) o => (s, [EObserved p w o])
